@@ -22,7 +22,7 @@ func init() {
 		ID:    "C14",
 		Level: "exploration",
 		Rule: "E-twin x k: (1) cap(Events) of NewBufferedWatcher(n) == n for n in {0,1,2,4,...,65536} and 0 for NewWatcher; (2) 2-4 measured Watchers with different buffer sizes on the same directories plus 1-4 interfering Watchers doing PRNG Add/Remove/Close/re-create, " +
-			"all fed by one sequential syscall driver; every measured Watcher's stream must equal the translated kernel log (hence each other); (3) a buffered Watcher with no consumer must hold exactly n<=cap distinct events (len(Events)==n) and deliver them intact and in order when drained; and cap+1 IDENTICAL events, each generated only after the previous one was read out of the kernel queue (FIONREAD==0), must all be delivered; (4) a Watcher is closed while its reader is held (verif yield point at the entry of handleEvent, no lock held) between two records of a batch whose next record is the rename of a watched file; a second Watcher created right away gets the same descriptor number and watch descriptors: its kernel marks, WatchList and Write events must be those of its own history; (5) a Watcher with a pending overflow error (Events drained, nobody on Errors) is closed while 24 Watchers are being created on other directories: each of those must keep its descriptor, its kernel mark, accept Add and report a change; (6) a Watcher subscribed to every operation (including the Linux-only open/read/close ones) on a directory and a file stays silent while other Watchers are created, Add/Remove the same paths and are closed, and then reports exactly the driver's one mkdir. " +
+			"all fed by one sequential syscall driver; every measured Watcher's stream must equal the translated kernel log (hence each other); (3) a buffered Watcher with no consumer must hold exactly n<=cap distinct events (len(Events)==n) and deliver them intact and in order when drained; and cap+1 IDENTICAL events, each generated only after the previous one was read out of the kernel queue (FIONREAD==0), must all be delivered; (4) a Watcher is closed while its reader is held (verif yield point at the entry of handleEvent, no lock held) between two records of a batch whose next record is the rename of a watched file; a second Watcher created right away gets the same descriptor number and watch descriptors: its kernel marks, WatchList and Write events must be those of its own history; (5) a Watcher with a pending overflow error (Events drained, nobody on Errors) is closed while 24 Watchers are being created on other directories: each of those must keep its descriptor, its kernel mark, accept Add and report a change; (6) a Watcher subscribed to every operation (including the Linux-only open/read/close ones) on a directory and a file stays silent while other Watchers are created, Add/Remove the same paths and are closed, and then reports exactly the driver's one mkdir; (7) sixteen Watchers created after another Watcher had a read error (EIO injected with strace) each deliver exactly the creations in their own directory. " +
 			"distinct_nontrivial = distinct (history, watcher configuration) runs with >=1 compared event",
 		Assumptions: []string{"kernel shadow = ground truth, one shadow per measured Watcher", "part (3) polls len(Events); if the count is never reached the goroutine dump decides (reader idle in read(2) => events were dropped), a busy reader is inconclusive"},
 		Batches:     func(t string) int { return map[string]int{"quick": 12, "thorough": 48}[t] },
@@ -63,6 +63,26 @@ func runC14(c *core.Ctx) {
 		dir, done := caseDir(c, 4000+i)
 		c14FdReuse(c, rng, dir, i)
 		done()
+	}
+	if c.Batch < 4 && c.Only < 0 {
+		when := []string{"1", "2", "1..3", "2+2"}[c.Batch]
+		if _, ok := c.CaseRng(8000, "neighbours created after an injected read error when="+when); ok {
+			faultNeighbours = true
+			r, inj, ok := runFault(c, when)
+			faultNeighbours = false
+			if ok {
+				c.Count("read_error_neighbour_sessions", 1)
+				c.Count("neighbours_created_after_a_read_error", int64(r.Neighbours))
+				c.Eval(1)
+				c.Distinct("fault-neighbours", when)
+				if r.NeighbourTimeouts > 0 {
+					c.Inconclusive(fmt.Sprintf("read-error neighbours: %d of %d neighbours did not deliver their sentinel within the cap; not judged", r.NeighbourTimeouts, r.Neighbours))
+				}
+				if len(r.NeighbourProblems) > 0 {
+					c.Violate("watcher-depends-on-another-watchers-read-error", fmt.Sprintf("after %d injected read errors on one Watcher (EIO, when=%s), %d Watchers created afterwards on their own directories: %v", inj, when, r.Neighbours, r.NeighbourProblems), r)
+				}
+			}
+		}
 	}
 	for i := 0; i < c.Pick(6, 40); i++ {
 		rng, ok := c.CaseRng(7000+i, "API calls of other Watchers are not filesystem activity")
